@@ -11,8 +11,8 @@ open Nervus Nervus.Crash
     compaction conditions `CondHist`.  False today: `C02.counterexample_live_tree` (a torn in-place
     write of a live leaf loses a property of an acknowledged, already compacted transaction) and
     `C02.counterexample_live_split` (an in-place split of the live leaf: plain process death
-    between the left-half rewrite and the manifest); not proved for compactions that sink into a
-    live tree with an internal root. -/
+    between the left-half rewrite and the manifest); not proved for compactions that sink keys into a
+    live tree with an internal root which are not above all its keys. -/
 def C01_full : Prop :=
   ∀ (rounds : List Round), FreshHist [] rounds →
     ∃ m fs', recover cfgOfSource (afterRounds cfgOfSource (created cfgOfSource) rounds) = .ok (m, fs') ∧
